@@ -75,3 +75,32 @@ def lifeCmd (st : LifeState) (cmd : String) (_args : List String) : Option (Life
   | _ => none
 
 end Driver
+
+namespace Driver
+open TunnelModel
+
+/-- C02 metadata family: the model of the code predicts exact delivery when
+    every string can be marshalled, and a dead tunnel otherwise -/
+def metaCmd (dead : Bool) (cmd : String) (args : List String) : Option (Bool × String) :=
+  match cmd with
+  | "meta.init" => some (false, "ok")
+  | "meta.utf8" =>
+    match args with
+    | [h] => match parseHex h with
+      | some b => let v := if Metadata.validUTF8 b then "1" else "0"; some (dead, s!"valid={v} marshal={v}")
+      | none => some (dead, "bad-op")
+    | _ => some (dead, "bad-op")
+  | "meta.rpc" =>
+    match kv args "strs" with
+    | some ss =>
+      let strs := if ss = "-" then [] else ss.splitOn ","
+      match strs.mapM parseHex with
+      | some bs =>
+        -- a frame that cannot be marshalled ends the carrier: the tunnel is dead from then on
+        if dead then some (true, "alive=0")
+        else if bs.all Metadata.validUTF8 then some (false, "st=1 hdr=1 tlr=1 req=1 alive=1") else some (true, "alive=0")
+      | none => some (dead, "bad-op")
+    | none => some (dead, "bad-op")
+  | _ => none
+
+end Driver
